@@ -23,12 +23,12 @@ RULE = ("(repro) generated programs of up to 8 operations from {construct(type, 
         "distinct read-only ops.")
 ASSUMPTIONS = ["CPU generator only (set_random_seed(cpu=True)); a single process", "bitwise comparison (torch.equal / ==)"]
 
-OBSN = ["SigmaZ", "SigmaX", "NI", "composite"]
+OBSN = ["SigmaZ", "SigmaX", "NI", "composite", "SWAP"]
 
 
 def make_obs(name):
-    from qucumber.observables import NeighbourInteraction, SigmaX, SigmaZ
-    return {"SigmaZ": lambda: SigmaZ(), "SigmaX": lambda: SigmaX(), "NI": lambda: NeighbourInteraction(c=1), "composite": lambda: 2 * SigmaZ() - SigmaX()}[name]()
+    from qucumber.observables import NeighbourInteraction, SigmaX, SigmaZ, SWAP
+    return {"SWAP": lambda: SWAP([0]), "SigmaZ": lambda: SigmaZ(), "SigmaX": lambda: SigmaX(), "NI": lambda: NeighbourInteraction(c=1), "composite": lambda: 2 * SigmaZ() - SigmaX()}[name]()
 
 
 def construct(op):
@@ -78,7 +78,7 @@ def programs(draw, tier):
             ops.append({"op": k})
     return {"ops": ops, "seed": draw(st.integers(0, 2 ** 32 - 1)), "seed2": draw(st.integers(0, 2 ** 32 - 1)),
             "np_seeds": [draw(st.integers(0, 2 ** 31 - 1)) for _ in range(2)], "consume": draw(st.integers(0, 5)),
-            "seed_form": draw(st.sampled_from(["explicit", "explicit", "default", "cpu_gpu", "gpu_positional"]))}
+            "seed_form": draw(st.sampled_from(["explicit", "explicit", "default", "cpu_gpu", "gpu_positional", "numpy_int", "keyword"]))}
 
 
 class Diverged(Exception):
@@ -97,6 +97,10 @@ def seed_lib(seed, form):
             qucumber.set_random_seed(seed, cpu=True, gpu=True, quiet=True)
         elif form == "gpu_positional":
             qucumber.set_random_seed(seed, True, True, True)
+        elif form == "numpy_int":
+            qucumber.set_random_seed(np.int64(seed % (2 ** 62)), quiet=True)       # e.g. a seed taken from a numpy array
+        elif form == "keyword":
+            qucumber.set_random_seed(seed=seed, cpu=True)
         else:
             qucumber.set_random_seed(seed, cpu=True, gpu=False, quiet=True)
 
